@@ -1,0 +1,63 @@
+//go:build !llgo
+// +build !llgo
+
+/*
+ * Copyright (c) 2024 The XGo Authors (xgo.dev). All rights reserved.
+ *
+ * Licensed under the Apache License, Version 2.0 (the "License");
+ * you may not use this file except in compliance with the License.
+ * You may obtain a copy of the License at
+ *
+ *     http://www.apache.org/licenses/LICENSE-2.0
+ *
+ * Unless required by applicable law or agreed to in writing, software
+ * distributed under the License is distributed on an "AS IS" BASIS,
+ * WITHOUT WARRANTIES OR CONDITIONS OF ANY KIND, either express or implied.
+ * See the License for the specific language governing permissions and
+ * limitations under the License.
+ */
+
+package ssa
+
+import (
+	"go/token"
+	"go/types"
+	"testing"
+)
+
+// $thunk / $bound wrappers are compiled into the referring package. Two
+// receiver types with the same name from different packages must not share
+// one wrapper name there.
+func TestFuncNameForeignReceiver(t *testing.T) {
+	newT := func(pkg *types.Package) *types.Named {
+		obj := types.NewTypeName(token.NoPos, pkg, "T", nil)
+		return types.NewNamed(obj, types.NewStruct(nil, nil), nil)
+	}
+	pkgMain := types.NewPackage("x", "main")
+	pkgA := types.NewPackage("x/a", "a")
+	pkgB := types.NewPackage("x/b", "b")
+	recv := func(typ types.Type) *types.Var { return types.NewVar(token.NoPos, nil, "", typ) }
+
+	cases := []struct {
+		pkg  *types.Package
+		recv types.Type
+		org  bool
+		name string
+		want string
+	}{
+		{pkgMain, newT(pkgMain), false, "M$bound", "x.T.M$bound"},
+		{pkgMain, newT(pkgA), false, "M$bound", "x.(x/a.T).M$bound"},
+		{pkgMain, newT(pkgB), false, "M$bound", "x.(x/b.T).M$bound"},
+		{pkgMain, types.NewPointer(newT(pkgMain)), false, "P$thunk", "x.(*T).P$thunk"},
+		{pkgMain, types.NewPointer(newT(pkgA)), false, "P$thunk", "x.(*x/a.T).P$thunk"},
+		{pkgA, newT(pkgA), false, "M", "x/a.T.M"},
+		{pkgA, types.NewPointer(newT(pkgA)), false, "M", "x/a.(*T).M"},
+		{pkgA, newT(pkgA), true, "M", "x/a.T.M"},
+		{types.NewPackage(PathOf(pkgA), "a"), newT(pkgA), false, "M", "x/a.T.M"},
+	}
+	for _, c := range cases {
+		if got := FuncName(c.pkg, c.name, recv(c.recv), c.org); got != c.want {
+			t.Errorf("FuncName(%s, %s, %v, %v) = %q, want %q", c.pkg.Path(), c.name, c.recv, c.org, got, c.want)
+		}
+	}
+}
